@@ -255,6 +255,13 @@ def _ill_scoped(expr, rn, op) -> bool:
     if rn & (valued_names(expr) - free_names(expr)):
         kernel.count(f"C13:{op}:valued-variable-range-skipped")
         return True
+    from .denote import subscript_names
+
+    if rn & subscript_names(expr) & _own_names(expr):
+        # the name is summed over as a variable of the term AND is a subscript value inside it (Sum[W] P(W, Z @ -W)): the
+        # DSL has one binder for both roles; which of them a request means is not defined - counted, not judged
+        kernel.count(f"C13:{op}:range-name-in-two-roles-skipped")
+        return True
     return False
 
 
@@ -428,6 +435,21 @@ def _post_same(op):
         if op == "bayes_expand" and any(c.star is not None for c in getattr(e, "children", ())):
             kernel.count("C13:bayes_expand:valued-child-skipped")  # would normalise over a constant
             return
+        if op == "bayes_expand":
+            # the expansion normalises with Sum[children]; a Sum binds a NAME, so when the name of an outcome occurs a
+            # second time in the term in another role (the same variable in another world among the conditions, or as a
+            # subscript), no expression of the DSL can sum over the outcome alone: such requests are counted, not judged
+            kids = {c.name for c in getattr(e, "children", ())}
+            others = set()
+            for v_ in list(getattr(e, "children", ())) + list(getattr(e, "parents", ())):
+                others |= {i.name for i in getattr(v_, "interventions", ()) or ()}
+            for v_ in getattr(e, "parents", ()):
+                if v_ not in getattr(e, "children", ()):
+                    others.add(v_.name)
+            seen_ = [c.name for c in getattr(e, "children", ())]
+            if kids & others or len(seen_) != len(set(seen_)):
+                kernel.count("C13:bayes_expand:outcome-name-in-a-second-role-skipped")
+                return
         _judge(op, res, lambda I, env: I.value(e, env), free_names(e), {"e": e}, (e,))
 
     return post
